@@ -13,8 +13,10 @@ place() {
     C16-f) cp $S/demo_test.go cmd/protoc-gen-fastmarshal/seed_demo_test.go; echo ./cmd/protoc-gen-fastmarshal/;;
     C20-f) cp $S/demo_test.go cmd/protodump/seed_demo_test.go; echo ./cmd/protodump/;;
     C12-g) cp $S/demo_run_test.go cmd/protoc-gen-fastmarshal/seed_c12_demo_test.go; echo ./cmd/protoc-gen-fastmarshal/;;
+    C15-h) cp $S/demo_test.go lazyproto/seed_c15_demo_test.go; echo ./lazyproto/;;
+    C16-h|C17-h) cp $S/demo_test.go cmd/protoc-gen-fastmarshal/seed_demo_test.go; mkdir -p SEED; echo ./cmd/protoc-gen-fastmarshal/;;
     C07-e) cp -r $S SEED; rm -f SEED/patch.diff SEED/meta.json; mv SEED/demo_test.go cmd/protoc-gen-fastmarshal/seed_c07_demo_test.go; echo ./cmd/protoc-gen-fastmarshal/;;
-    *-c|*-d|*-e|*-f|*-g) cp -r $S SEED; rm -f SEED/patch.diff SEED/meta.json; echo SEEDDIR;;
+    *-c|*-d|*-e|*-f|*-g|*-h) cp -r $S SEED; rm -f SEED/patch.diff SEED/meta.json; echo SEEDDIR;;
     *) case "$pkgline" in
          csproto_test) cp $S/demo_test.go ./zz_seed_demo_test.go; echo .;;
          lazyproto_test) cp $S/demo_test.go lazyproto/zz_seed_demo_test.go; echo ./lazyproto/;;
@@ -29,12 +31,14 @@ run() {
   if [ "$where" = SEEDDIR ]; then
     case "$id" in
       C06-b) go run ./SEED/demo 2>&1 | tail -3; return ${PIPESTATUS[0]};;
+      C09-h|C12-h) go run -tags "$TAGS" ./SEED/demo 2>&1 | tail -3; return ${PIPESTATUS[0]};;
       C07-d) go run -tags "$TAGS" ./SEED/demo 2>&1 | tail -3; return ${PIPESTATUS[0]};;
       C19-d) go test -count=1 -tags "$TAGS" ./SEED/demo/ 2>&1 | tail -3; return ${PIPESTATUS[0]};;
       *) go test -count=1 -tags "$TAGS" ./SEED/ 2>&1 | tail -3; return ${PIPESTATUS[0]};;
     esac
   else
-    go test -count=1 -tags "$TAGS" -run 'Seed|TestC14|TestC04' $where 2>&1 | tail -3; return ${PIPESTATUS[0]}
+    RACE=""; [ "$id" = C15-h ] && RACE="-race"
+    go test $RACE -count=1 -tags "$TAGS" -run 'Seed|TestC14|TestC04' $where 2>&1 | tail -3; return ${PIPESTATUS[0]}
   fi
 }
 w=$(place)
